@@ -29,6 +29,8 @@ func init() {
 		tables.BlankLine(p, r)
 		tables.WrapJoin(p, r)
 		tables.QualFormat(p, r)
+		tables.LocusSep(p, r)
+		tables.C16(p, r) // the ORIGIN block is part of the record: its layout rules are necessary for "same residues"
 		conserve.MapInit(p, r)
 		traps.NoDump(p, r)
 	})
@@ -44,6 +46,7 @@ func init() {
 		conserve.C02(p, r)
 		r.Rule("EDIT-CHAIN", "in gts insert / gts infix (where C02 is observed) every record written starts its chain of edits from the scanned record, not from the previous record written", 2)
 		conserve.EditChain(p, r, []string{"insert", "infix"})
+		conserve.BackToFront(p, r, []string{"insert", "infix"}, 2)
 		conserve.NoReorder(p, r, "Shift", "Expand")
 		conserve.LocationMethodRules(p, r, "Shift", "Expand")
 		conserve.DelegateComplemented(p, r, "Shift", "Expand")
@@ -51,11 +54,14 @@ func init() {
 		siblings.Shift(p, r)
 		siblings.Expand(p, r)
 		tables.OriginLen(p, r)
+		tables.LenDelegate(p, r)
 	})
 	register("C03", true, func(p *core.Prog, r *core.Report, tier string) {
 		effects.PureOps(11, "Delete", "Erase", "Slice", "(FeatureSlice).Filter", "(GenBankFields).Slice", "*.Shift", "*.Expand")(p, r)
 		conserve.C03(p, r)
 		conserve.AsCompleteRules(p, r)
+		conserve.QuantAll(p, r)
+		orders.RangePred(p, r)
 		conserve.NormaliseFirst(p, r, 3, core.PkgGts, core.PkgSeqio, core.PkgMain)
 		conserve.SliceRegion(p, r)
 		conserve.LocationMethodRules(p, r, "Expand")
@@ -84,6 +90,7 @@ func init() {
 		effects.PureOps(2, "(FeatureSlice).Insert", "(FeatureSlice).Filter")(p, r)
 		conserve.EscAutomaton(p, r)
 		orders.Compare3(p, r)
+		orders.RangePred(p, r)
 		conserve.FilterRule(p, r)
 		conserve.QuantAll(p, r)
 		conserve.NotOfOr(p, r)
@@ -114,6 +121,7 @@ func init() {
 		conserve.NoReorder(p, r, "Reverse")
 		conserve.LocationMethodRules(p, r, "Reverse")
 		conserve.LocateRC(p, r)
+		conserve.RegionDelegate(p, r)
 		conserve.MirrorArith(p, r)
 		conserve.DelegateComplemented(p, r, "Reverse")
 		conserve.PartialCarry(p, r, "Reverse")
@@ -135,6 +143,7 @@ func init() {
 		conserve.ConcatOffset(p, r) // Regions.Locate concatenates the slices of the segments
 		conserve.NoEarlyExit(p, r, core.PkgGts, "Regions.Resize", "for", "the walks that carry the offsets across the segments")
 		conserve.LocWhole(p, r)
+		conserve.RegionDelegate(p, r)
 		r.Rule("DEDUP-EXACT", "a membership helper of package main (shape func([]T, T) bool) decides membership by reflect.DeepEqual or == of the element and the candidate, nothing coarser (gts extract drops repeated regions with it: two different regions must both be extracted)", 1)
 		conserve.DedupExact(p, r)
 	})
@@ -161,12 +170,15 @@ func init() {
 		conserve.EmitAll(p, r, multi, 4)
 		conserve.UniqueCuts(p, r)
 		conserve.FlushAll(p, r, multi, 6)
+		conserve.BackToFront(p, r, multi, 3)
+		conserve.WalkPrefix(p, r) // modified locators on joined features go through Regions.Resize
 		conserve.LocatorFresh(p, r)
 		orders.SegmentOrder(p, r)
 		orders.RegionAlgebra(p, r, 2)
 	})
 	register("C07", true, func(p *core.Prog, r *core.Report, tier string) {
 		traps.C07(p, r)
+		traps.CommitHonour(p, r)
 		traps.NoDump(p, r)
 		traps.OriginLength(p, r, true)
 		conserve.MapInit(p, r)
@@ -174,8 +186,15 @@ func init() {
 	register("C11", true, func(p *core.Prog, r *core.Report, tier string) {
 		effects.C11(p, r)
 		globals.ShallowCache(p, r)
+		conserve.LocatorFresh(p, r) // a locator is applied to record after record: what it returns must not be shared between calls
 	})
-	register("C13", false, func(p *core.Prog, r *core.Report, tier string) { integrity.C13(p, r) })
+	register("C13", false, func(p *core.Prog, r *core.Report, tier string) {
+		integrity.C13(p, r)
+		// the keys an entry is stored and looked up under: an entry "for a different argument digest" can
+		// only be told apart if different argument lists have different digests
+		cachekey.PayloadEncode(p, r)
+		cachekey.HashStrong(p, r)
+	})
 	register("C14", false, func(p *core.Prog, r *core.Report, tier string) { cachekey.C14(p, r) })
 }
 
@@ -190,6 +209,7 @@ func init() {
 		conserve.LocationMethodRules(p, r, "Expand")
 		conserve.NoEarlyExit(p, r, core.PkgGts, "Repair", "last", "the pass that groups the features and merges their locations")
 		conserve.FlushAll(p, r, []string{"split", "repair"}, 2)
+		conserve.Window(p, r) // the pieces Repair re-assembles are cut by Slice: its feature window is part of the round trip
 		r.NotDecided = append(r.NotDecided, "that a cut feature is restored to its original location", "idempotence", "which abutting fragments Push merges (partial3 meets partial5)", "that the residues covered by each class are unchanged")
 	})
 }
